@@ -278,8 +278,11 @@ def main(argv):
         "wall_s": round(time.time() - t0, 2),
         "violations": len(violations),
     }
-    (VERIF / "evidence").mkdir(exist_ok=True)
-    (VERIF / "evidence" / ("%s.json" % pid)).write_text(json.dumps(ev, indent=1, default=str))
+    # mutant/seeded runs (tools/mutant.sh) write their evidence elsewhere so that the committed
+    # evidence always comes from a run against /repo itself
+    evdir = Path(os.environ.get("VERIF_EVIDENCE_DIR") or (VERIF / "evidence"))
+    evdir.mkdir(parents=True, exist_ok=True)
+    (evdir / ("%s.json" % pid)).write_text(json.dumps(ev, indent=1, default=str))
 
     for line in known_lines:
         print(line)
